@@ -8,6 +8,9 @@
         outcome = ok <t 0|1> <eqc>  |  wt <t 0|1> <eqc>  |  rs
       → r1;r2;... | n=<instances created> s<cls>=<idx> ... c<conn>.<cls>=<idx> ...
         r = S<idx>:<t>:<eqc>:<created>:<creatorCalled> | TE | RS<creatorCalled> | DE | -
+        The same history is also run through the TRANSCRIPTION of the current source of `_getInstance`
+        (Pyro.Gen.C09Src.getInstanceSrc, user exceptions both as `Exception` and as `BaseException`); if its output
+        differs from the model's, ` !src<ub> <output | stuck>` is appended (so the line no longer equals the real code's).
     beh <isClass 0|1> <single|session|percall|invalid|notstr> <none|callable|falsycallable|notcallable|falsynotcallable>
       → stored:<mode>:<creator> | TypeError | ValueError | SyntaxError
     reg <0 | 1 mode creator>
@@ -15,6 +18,8 @@
 -/
 import PyroModel.Instances
 import PyroModel.Gen.C09
+import PyroModel.InstancesSrc
+import PyroModel.Gen.C09Src
 import Driver.Util
 
 open Pyro Pyro.Inst Driver
@@ -130,7 +135,15 @@ def step : List String → String
         | some nconn, some h =>
           let spec : Nat → ClassSpec := fun k => (specs[k]?).getD ⟨.invalid, .none⟩
           let (s, tr) := runHist ts spec State.init h
-          ";".intercalate (tr.map resStr) ++ " | " ++ dumpState s ncls nconn
+          let out := ";".intercalate (tr.map resStr) ++ " | " ++ dumpState s ncls nconn
+          let viaSrc (ub : Bool) : String :=
+            if !Pyro.Gen.C09Src.translated then ""
+            else
+              let o := match Pyro.Inst.Src.runHistSrc Pyro.Gen.C09Src.getInstanceSrc spec ub State.init h with
+                | some (s', tr') => ";".intercalate (tr'.map resStr) ++ " | " ++ dumpState s' ncls nconn
+                | none => "stuck"
+              if o == out then "" else s!" !src{b01 ub} {o}"
+          out ++ viaSrc false ++ viaSrc true
         | _, _ => "bad-events"
       | _ => "bad-specs"
   | ["beh", isClass, m, c] =>
